@@ -241,6 +241,7 @@ def rawRoute (snapshot : Bool) (m p : String) : String :=
 inductive Op where
   | invoke (c : Nat) (size : Nat) (hash : String)
   | beh (base : String) (b : String)
+  | execFail (base : String) (on : Bool)
   | register (name : String) (es : List Ev) (variant : String)
   | agNext (name mode : String)
   | agReport (name call etype mode : String)
@@ -269,6 +270,7 @@ def applyOp (s : State) : Op → State
       { s with nextK := k + 1, resv := some { k := k, caller := c }, invokerNil := false,
                flights := s.flights ++ [{ caller := c, k := k, phash := h }], timers := s.timers ++ [.invoke c] }
   | .beh base b => { s with beh := (s.beh.filter (·.1 != base)) ++ [(base, b)] }
+  | .execFail base on => { s with execFails := (s.execFails.filter (· != base)) ++ (if on then [base] else []) }
   | .register name es v => agRegister s name es v
   | .agNext name mode => agNext s name mode
   | .agReport name call etype mode => agReport s name call etype mode
